@@ -53,7 +53,7 @@ type c11Batch struct {
 	UDP       int
 }
 
-var c11Patterns = []string{"stray-only", "stray-then-right", "stale-previous", "unsolicited-twice", "reordered", "busy-stray-giveup", "encapsulated"}
+var c11Patterns = []string{"stray-only", "stray-then-right", "stale-previous", "unsolicited-twice", "reordered", "busy-stray-giveup", "encapsulated", "reflected"}
 
 func init() {
 	register(&Check{
@@ -290,6 +290,21 @@ func c11Run(run *ev.Run, o c11One) {
 			}
 			strays++
 			return wrap(strayMsg(last)), nil
+		case "reflected":
+			// a request-form message (even NetFn) for the very command in flight, carrying other
+			// data: the console's request reflected, or the BMC itself issuing that command
+			if attempt == 1 {
+				strays++
+				body := c11Body(opB, 0xe2)
+				if opB.NoRsp {
+					body = []byte{0x42, 0, 0, 0}
+				}
+				m := refbmc.BuildRsp(0x81, opB.NetFn&^1, 0, 0x20, last.RqSeq, 0, opB.Cmd, o.StrayCode, body)
+				if !o.InSession && (o.A+o.B)%2 == 0 {
+					return append([]byte(nil), req...), nil
+				}
+				return wrap(m), nil
+			}
 		case "encapsulated":
 			// a stray reply to a bridging command (Send Message, or Master Write-Read) whose data
 			// bytes are themselves a well-formed response message to the command in flight
